@@ -19,8 +19,8 @@ CONFIGS = {
     "set-set": dict(modes=("set", "set"), nmsg=(2, 2)),
     "alloc-input": dict(modes=("allocate", "input"), nmsg=(1, 2)),
 }
-PHASES = ["pake", "version", "0", "1", "dilate-0", "junk"]
-NONPAKE = ["version", "0", "1", "dilate-0", "junk"]
+PHASES = ["pake", "version", "0", "1", "dilate-0", "junk", "0\u0661", "0\u200b", "00", "\u0660"]
+NONPAKE = ["version", "0", "1", "dilate-0", "junk", "0\u0661", "1\u200b"]
 
 
 def pass_hex(x):
@@ -59,7 +59,8 @@ class Tamper(Job):
         c = sim.cl[victim]
         peer = sim.cl[1 - victim]
         stored = sim.mailbox_msgs(c) if c.conn is not None else []
-        sides = [c.side, peer.side, THIRD]
+        # own / peer / third side, and look-alikes that differ from a real side only by non-ASCII characters
+        sides = [c.side, peer.side, THIRD, c.side + "\u200b", "\u00e9" + c.side, peer.side + "\u200b"]
         symbolic = script is None
         if symbolic:
             side = fresh_enum("inj%d_side" % j, sides)
@@ -201,8 +202,8 @@ class PhaseKeyBinding(Job):
     bounds = dict(labels="two (side, phase) pairs, each label one of 4 symbolic strings")
 
     def scenario(self):
-        sides = ["aaaaaaaaaa", "bbbbbbbbbb", "cccccccccc", "0"]
-        phases = ["0", "1", "version", "pake"]
+        sides = ["aaaaaaaaaa", "bbbbbbbbbb", "aaaaaaaaaa\u200b", "\u00e9aaaaaaaaaa"]
+        phases = ["0", "1", "version", "0\u0661", "0\u200b"]
         s1, s2 = fresh_enum("side1", sides), fresh_enum("side2", sides)
         p1, p2 = fresh_enum("phase1", phases), fresh_enum("phase2", phases)
         eng().inputs.update(side1=s1, side2=s2, phase1=p1, phase2=p2)
@@ -221,16 +222,24 @@ class PhaseKeyBinding(Job):
             return CTXinfo
 
         with loader.shadow((KEY, "HKDF", hk), (KEY, "sha256", Sha), (KEY, "isinstance", V.sym_isinstance)):
-            k1 = KEY.derive_phase_key(b"k" * 32, s1, p1)
-            k2 = KEY.derive_phase_key(b"k" * 32, s2, p2)
+            try:
+                k1 = KEY.derive_phase_key(b"k" * 32, s1, p1)
+                k2 = KEY.derive_phase_key(b"k" * 32, s2, p2)
+            except UnicodeEncodeError:
+                # a label that is not ASCII derives no key at all (the message is then an error, never a delivery)
+                eng().note("nt:non-ascii-label-refused")
+                return
         same_labels = sym_and(s1 == s2, p1 == p2)
         check(sym_or(same_labels, k1 != k2) if not isinstance(same_labels, bool) else (same_labels or k1 != k2),
               "two different (side, phase) labels derive the same phase key")
         eng().note("nt:binding")
 
     def replay(self, inp, label):
-        a = KEY.derive_phase_key(b"k" * 32, inp["side1"], inp["phase1"])
-        b = KEY.derive_phase_key(b"k" * 32, inp["side2"], inp["phase2"])
+        try:
+            a = KEY.derive_phase_key(b"k" * 32, inp["side1"], inp["phase1"])
+            b = KEY.derive_phase_key(b"k" * 32, inp["side2"], inp["phase2"])
+        except UnicodeEncodeError:
+            return None
         if (inp["side1"], inp["phase1"]) != (inp["side2"], inp["phase2"]) and a == b:
             return "derive_phase_key gives the same key for %r and %r" % ((inp["side1"], inp["phase1"]), (inp["side2"], inp["phase2"]))
         return None
